@@ -23,7 +23,9 @@ RULE = ("one evaluation = (match program, subject). Programs have 1-5 cases; eac
         "arguments) and keyword patterns; literal patterns include string/bytes literals spelled like None/True/"
         "False/_ (also as mapping keys, with the corresponding subjects); optional :if guards, 40% of them "
         "statement-producing, 30% bare literal models of every literal kind (falsy and truthy); bodies log "
-        "the case index and return the bound values; module scope and function scope. Subjects are "
+        "the case index and return the bound values; module scope and function scope; the match value is "
+        "the result, or is assigned with setv/setx (value used) to a target that the subject, a guard or "
+        "the bodies read. Subjects are "
         "instantiations of a pattern of the program (exact, or perturbed: literal changed, element "
         "dropped/added, container or class changed) or random values. Non-trivial = some pattern of the "
         "program has depth >= 2, a guard, :as or |; distinct by (program text, subject).")
@@ -106,7 +108,7 @@ BUILTINS = {"int": ["0", "1", "2", "-1", "True"], "str": ["'a'", "'s'", "''"], "
 def env(tr):
     import hy
     return {"Point": Point, "P3": P3, "NoArgs": NoArgs, "K": K, "NS": NS, "L": tr.L,
-            "KW": hy.models.Keyword, "hy": hy}
+            "KW": hy.models.Keyword, "hy": hy, "IDENT": lambda v: v, "tgt": "OLD"}
 
 
 LITS = [("0", "0"), ("1", "1"), ("2", "2"), ("-1", "-1"), ("'a'", '"a"'), ("'s'", '"s"'), ("''", '""'),
@@ -428,36 +430,67 @@ def py_guard(g):
 
 
 def render(prog):
-    """-> (hy text, python text)."""
+    """-> (hy text, python text).
+
+    Usage contexts (prog["use"]): the value of the match form is the program's result
+    ("plain"), or is assigned with setv / setx to a target T that the subject (T is
+    `subject` itself), a guard or the case bodies also READ. Python evaluates subject,
+    guards and bodies with T's old value and assigns last; the twin does exactly that."""
     scope, cases_ = prog["scope"], prog["cases"]
+    use = prog.get("use") or {"kind": "plain"}
+    kind = use["kind"]
+    T = use.get("t", "tgt")
     hy_clauses, py_cases = [], []
     for i, c in enumerate(cases_):
-        names = c["names"]
-        blist_h = "[" + " ".join(names) + "]"
-        blist_p = "[" + ", ".join(map(pyname, names)) + "]"
+        names = list(c["names"])
+        extra_h, extra_p = ([T], [T]) if kind != "plain" and use.get("body") else ([], [])
+        blist_h = "[" + " ".join(names + extra_h) + "]"
+        blist_p = "[" + ", ".join(list(map(pyname, names)) + extra_p) + "]"
         body_h = f"(L {100 + i} {blist_h})"
         if c["body"] == "stmt":
             body_h = f"(do (setv btmp{i} {100 + i}) (L btmp{i} {blist_h}))"
         clause = hy_pat(c["p"])
         head = f"case {py_pat(c['p'])}"
-        if c["guard"]:
-            clause += " :if " + hy_guard(c["guard"])
-            head += " if " + py_guard(c["guard"])
+        g = c["guard"]
+        if g:
+            clause += " :if " + hy_guard(g)
+            head += " if " + py_guard(g)
+        elif kind != "plain" and use.get("guard") and i % 2 == 0:
+            # a guard that reads the assignment target's old value
+            gh, gp = ((f'(= {T} "OLD")', f'({T} == "OLD")') if T == "tgt" else
+                      (f"(is-not {T} None)", f"({T} is not None)"))
+            clause += f" :if (L {30 + i} {gh})"
+            head += f" if L({30 + i}, {gp})"
         hy_clauses.append(f"  {clause} {body_h}")
         py_cases.append((head, f"L({100 + i}, {blist_p})"))
     subj_h = "subject" if prog["subj"] == "name" else "(do (setv stmp subject) stmp)"
     body = "\n".join(hy_clauses)
+    m_h = f"(match {subj_h}\n{body})"
+    ind = "    " if scope == "fn" else ""
+    m_p = f"{ind}_r = None\n{ind}match subject:\n"
+    for head, ret in py_cases:
+        m_p += f"{ind}    {head}:\n{ind}        _r = {ret}\n"
+    if kind == "plain":
+        use_h, res_h = None, m_h
+        use_p, res_p = "", "_r"
+    elif kind == "setv":
+        use_h, res_h = f"(setv {T} {m_h})", T
+        use_p, res_p = f"{ind}{T} = _r\n", T
+    else:   # setx, value used
+        use_h, res_h = f"(setv out (IDENT (setx {T} {m_h})))", f"[out {T}]"
+        use_p, res_p = f"{ind}{T} = _r\n{ind}out = IDENT(_r)\n", f"[out, {T}]"
     if scope == "fn":
-        hy = f"(defn run [subject]\n (match {subj_h}\n{body}))"
-        py = "def run(subject):\n    match subject:\n"
-        for head, ret in py_cases:
-            py += f"        {head}:\n            return {ret}\n"
-        py += "    return None\n"
+        pre_h = '(setv tgt "OLD")\n ' if kind != "plain" and T == "tgt" else ""
+        pre_p = '    tgt = "OLD"\n' if kind != "plain" and T == "tgt" else ""
+        if kind == "plain":
+            hy = f"(defn run [subject]\n {m_h})"
+        else:
+            hy = f"(defn run [subject]\n {pre_h}{use_h}\n {res_h})"
+        py = f"def run(subject):\n{pre_p}{m_p}{use_p}    return {res_p}\n"
     else:
-        hy = f"(setv RESULT (match {subj_h}\n{body}))"
-        py = "RESULT = None\nmatch subject:\n"
-        for head, ret in py_cases:
-            py += f"    {head}:\n        RESULT = {ret}\n"
+        # module scope: the harness pre-binds tgt = "OLD"
+        hy = f"(setv RESULT {m_h})" if kind == "plain" else f"{use_h}\n(setv RESULT {res_h})"
+        py = f"{m_p}{use_p}RESULT = {res_p}\n"
     return hy, py
 
 
@@ -587,8 +620,12 @@ def gen_program(rng):
             guard = gen_guard(rng, names, 10 + i)       # CPython rejects an unguarded irrefutable non-last case
         cases_.append({"p": p, "names": sorted(names), "guard": guard,
                        "body": "stmt" if rng.random() < 0.25 else "expr"})
+    use = {"kind": "plain"}
+    if rng.random() < 0.4:
+        use = {"kind": rng.choice(["setv", "setv", "setx"]), "t": rng.choice(["tgt", "tgt", "subject"]),
+               "body": rng.random() < 0.6, "guard": rng.random() < 0.5}
     return {"scope": rng.choice(["fn", "fn", "module"]), "subj": rng.choice(["name", "name", "stmt"]),
-            "cases": cases_}
+            "cases": cases_, "use": use}
 
 
 def cases(seed, tier, shard, nshards):
@@ -728,6 +765,14 @@ def evaluate(case):
         classes.append("subject:string-spelled-like-constant")
     if prog["subj"] == "stmt":
         classes.append("subject:statement")
+    use = prog.get("use") or {"kind": "plain"}
+    classes.append("use:" + use["kind"])
+    if use["kind"] != "plain":
+        classes.append("use:target-is-" + use["t"])
+        if use.get("body"):
+            classes.append("use:body-reads-target")
+        if use.get("guard"):
+            classes.append("use:guard-reads-target")
     nontrivial = maxdepth >= 2 or bool(guards) or bool(kinds & {"as", "or"})
     res = {"ok": True, "nontrivial": False, "classes": classes, "events": 0, "n": 0, "nt_keys": []}
     hcode, pcode = compile_both(case)
